@@ -66,6 +66,12 @@ func (db *DB) Merge() error {
 	mergePath := db.mergePath()
 	// 如果存在上次 merge 的残留目录, 将其删除
 	if _, err := os.Stat(mergePath); err == nil {
+		// 残留目录可能属于已完成但尚未加载的 merge: 先删除完成标识, 再删除目录,
+		// 保证删除中途崩溃后残留目录被视为未完成的 merge 而被忽略
+		marker := datafile.GetFileName(mergePath, 0, datafile.MergeFinishedFileSuffix)
+		if err := os.Remove(marker); err != nil && !os.IsNotExist(err) {
+			return err
+		}
 		if err := os.RemoveAll(mergePath); err != nil {
 			return err
 		}
